@@ -23,6 +23,7 @@ RULE = (
     'whose transit exceeds the window; distinct = SHA-1 of (jump table, sites, window, cut-off).'
 )
 RULE += ' Added in rounds 5-10: injected tables in 5 row orders, 4 kinds of row labels and permuted column orders; cut-offs 0, negative, 1e-9; windows 0 and negative.'
+RULE += ' Round 15: the reference window comes from an independent copy of the diffusing atoms; the whole system is asked for its attempt frequency first in half of the cases.'
 RULE += ' Round 14: 12 (600) strictly periodic hopping runs whose attempt period is an exact whole number of time steps: window = that number, pairs recomputed with it.'
 RULE += ' Round 12: a quarter of the cut-offs lie 1e-10..1e-7 A above or below one of the site-site distances.'
 ASSUMPTIONS = [
@@ -224,7 +225,17 @@ def run_unit(unit, rng, ctx):
         if j is not None and j.n_jumps >= 2:
             rows = [tuple(int(x) for x in r) for r in j.data[COLS].to_numpy()]
             cutoff = pick_cutoff(rng, dsite)
-            freq = float(TrajectoryMetrics(tr.diff_trajectory).attempt_frequency()[0])
+            # the reference attempt frequency comes from an independent copy of the diffusing atoms' motion (own arrays,
+            # own metadata); in half of the cases the whole system's attempt frequency (framework vibrations included)
+            # is asked for first, as an analysis script that prints both would
+            from gemdat import Trajectory as _Tr
+
+            dtr_ = tr.diff_trajectory
+            twin_ = _Tr(species=list(dtr_.species), coords=np.array(dtr_.positions), lattice=dtr_.get_lattice(), time_step=dtr_.time_step, metadata={'temperature': float(dtr_.metadata.get('temperature', 300.0))})
+            freq = float(TrajectoryMetrics(twin_).attempt_frequency()[0])
+            if unit['i'] % 2 == 0:
+                _ = TrajectoryMetrics(tr.trajectory).attempt_frequency()
+                ctx.count('whole_system_attempt_frequency_asked_before_collective')
             if np.isfinite(freq) and freq > 0:
                 coll = j.collective(max_dist=cutoff) if rng.integers(2) else j.collective(cutoff)  # the documented positional form
                 w = math.ceil(1.0 / (freq * sys_.time_step))
